@@ -110,7 +110,7 @@ def run_messages(env, p):
     clock = C.VirtualClock(env.real('now', 1000, 2000))
     cl = make_client(env, desc, clock)
     K = 'C12/messages'
-    calls = {'node': [], 'module': [], 'param': [], 'other-param': [], 'oneshot': [], 'after-oneshot': []}
+    calls = {'node': [], 'module': [], 'param': [], 'other-param': [], 'oneshot': [], 'oneshot2': [], 'after-oneshot': []}
 
     def cb(level):
         def updateItem(module, parameter, item):
@@ -130,7 +130,13 @@ def run_messages(env, p):
 
         def after_oneshot(module, parameter, item):
             calls['after-oneshot'].append((module, parameter, item))
+        def oneshot2(module, parameter, item):
+            # belt and braces: unregisters itself AND raises UnregisterCallback
+            calls['oneshot2'].append((module, parameter, item))
+            cl.unregister_callback('m', updateItem=oneshot2)
+            raise UnregisterCallback()
         cl.register_callback('m', updateItem=oneshot)
+        cl.register_callback('m', updateItem=oneshot2)
         cl.register_callback('m', updateItem=after_oneshot)
         cl.register_callback('m', cbs['module'])
         cl.register_callback(('m', 'pf'), cbs['param'])
